@@ -446,6 +446,11 @@ def subtractVotes (cv : WProfile) (cand : Cand) (gained : Nat) (quota : Rat) : E
     pure (cv1.foldl (fun d bw => addWeight d (bw.1.filter (fun p => p.1 ≠ cand)) bw.2) [])
   else pure cv1
 
+/-- the elimination step of `_subtract_votes` (L484-495): the candidate's grades leave the ballots; ballots that become
+    equal are merged -/
+def removeCand (cv : WProfile) (cand : Cand) : WProfile :=
+  cv.foldl (fun d bw => addWeight d (bw.1.filter (fun p => p.1 ≠ cand)) bw.2) []
+
 abbrev Elected := List (Key × Nat)
 
 def bump : Elected → Key → Nat → Elected
@@ -486,5 +491,69 @@ def allocatedSelector (quota : Rat → Nat → Rat) (votes : SProfile) (n : Nat)
   let q := quota (((totalVotes votes : Int)) : Rat) n
   let e ← allocLoop q n cv [] n
   pure (e.flatMap (fun p => List.replicate p.2 p.1))
+
+/-! ### Allocated score by definition (tie-free rounds, no ballot running out)
+
+  Each seat: the candidate with the strictly greatest weighted score sum `Σ grade · weight`; one quota of its strongest
+  supporters is spent — grade group by grade group from the highest grade down, whole groups while they fit, the last one
+  scaled uniformly —; then the winner's grades leave the ballots.  The definition is partial: it gives `none` as soon as
+  a round has no strict winner (the code's tie branches) or a ballot has run out (the code then raises, see the open
+  findings), so `(allocSpec …).isSome` is the decidable hypothesis "every round is tie-free and no ballot runs out". -/
+
+/-- weighted score sum of a candidate over the remaining ballots -/
+def scoreSum (cv : WProfile) (c : Cand) : Rat :=
+  (cv.map (fun bw => match ballotScore bw.1 c with
+    | some g => g * bw.2
+    | none => 0)).sum
+
+/-- the candidates graded on some remaining ballot -/
+def gradedCands (cv : WProfile) : List Cand := Appr.sortDedup (cv.flatMap (fun bw => bw.1.map (·.1)))
+
+/-- no ballot is left, or a ballot grades nobody any more -/
+def ballotRanOut (cv : WProfile) : Bool := cv.isEmpty || cv.any (fun bw => bw.1.isEmpty)
+
+/-- greatest entry of a list -/
+def listMax? : List Rat → Option Rat
+  | [] => none
+  | x :: xs => some (xs.foldl (fun m y => if m < y then y else m) x)
+
+/-- the highest grade any remaining ballot gives `c` -/
+def maxGrade? (cv : WProfile) (c : Cand) : Option Rat := listMax? (cv.filterMap (fun bw => ballotScore bw.1 c))
+
+/-- weight of the ballots grading `c` exactly `m` -/
+def gradeWeight (cv : WProfile) (c : Cand) (m : Rat) : Rat :=
+  ((cv.filter (fun bw => ballotScore bw.1 c = some m)).map (·.2)).sum
+
+/-- spend (at most) `q` of ballot weight on `c`, strongest supporters first -/
+def spendSpec : Nat → WProfile → Cand → Rat → Option WProfile
+  | 0, _, _, _ => none
+  | fuel + 1, cv, c, q =>
+    if q ≤ 0 then some cv
+    else if ballotRanOut cv then none
+    else match maxGrade? cv c with
+      | none => some cv
+      | some m =>
+        let size := gradeWeight cv c m
+        if size > q then
+          some (cv.map (fun bw => if ballotScore bw.1 c = some m then (bw.1, bw.2 * ((size - q) / size)) else bw))
+        else spendSpec fuel (cv.filter (fun bw => !decide (ballotScore bw.1 c = some m))) c (q - size)
+
+/-- the rounds; the first argument is the number of seats still to fill -/
+def allocSpecGo (q : Rat) : Nat → WProfile → List Cand → Option (List Cand)
+  | 0, _, el => some el
+  | rem + 1, cv, el =>
+    if ballotRanOut cv then none
+    else
+      let cands := gradedCands cv
+      match cands.filter (fun c => cands.all (fun d => decide (scoreSum cv d ≤ scoreSum cv c))) with
+      | [c] =>
+        match spendSpec (cv.length + 1) cv c q with
+        | some cv1 => allocSpecGo q rem (removeCand cv1 c) (el ++ [c])
+        | none => none
+      | _ => none
+
+/-- allocated score (selector) by definition -/
+def allocSpec (quota : Rat → Nat → Rat) (votes : SProfile) (n : Nat) : Option (List Cand) :=
+  allocSpecGo (quota (((totalVotes votes : Int)) : Rat) n) n (votes.map (fun bn => (bn.1, ((bn.2 : Int) : Rat)))) []
 
 end VL.Score
